@@ -18,6 +18,13 @@ def cases(tier, seed):
     for nb, ws in ((1, (1, F(1, 2))), (2, (1, 2))):
         for cands, bl in gen.profiles_exhaustive(3, nb, [F(w) for w in ws], ties=True):
             cs.append(("remove", cands, bl))
+    # candidate names contained in one another (a single name given as a str must be compared as a whole)
+    sub = {"A": "Ann", "B": "Ann Lee", "C": "n"}
+    j = 0
+    for cands, bl in gen.profiles_exhaustive(3, 2, [F(1), F(2)], ties=True):
+        j += 1
+        if j % 5 == 0:
+            cs.insert(0, ("remove", [sub[c] for c in cands], [(tuple(frozenset(sub[c] for c in s_) for s_ in r), w) for r, w in bl]))
     for cands, bl in gen.profiles_exhaustive(3, 2, [F(1), F(3, 2)], ties=False, distinct_rankings=False):
         cs.append(("clean", cands, bl))
     for n in (1, 2, 3, 4):
